@@ -143,6 +143,24 @@ CHECKS = {
         "documented ordering).",
         "DESIGN.md section 4, C09",
     ),
+    "C11": (
+        "exploration",
+        "schedule exploration with a harness-owned cooperative scheduler: "
+        "exhaustive DFS over all interleavings for the small configurations, "
+        "Hypothesis-generated schedules beyond",
+        "Growers, a reap(wait=True) actor and a progress poller run as "
+        "threads of which exactly one holds the baton; every observable file "
+        "operation in results/ is a yield point and the schedule is a "
+        "generated value.  Five small configurations are enumerated "
+        "completely (about 1.9k interleavings on the current tree); 3000 "
+        "(quick) / 120000 (thorough) generated schedules cover crops of 1-3 "
+        "batches with up to 4 growers.  The reaper must return the exact "
+        "result without error and the poller must never count a file that is "
+        "not complete at that very instant.",
+        "Threads stand in for processes on a shared POSIX directory; file "
+        "reads are snapshots; liveness is not claimed.",
+        "DESIGN.md section 4, C11",
+    ),
     "C12": (
         "fault_enumeration",
         "enumerated fault injection over the cross product of reap options, "
